@@ -2,14 +2,19 @@ from pyvc.contracts import contract
 from pyvc.shapes import *
 from specs.dwarf import cu_at, CUT, SecT
 
-DWARFInfoT = Obj('DWARFInfo', debug_info_sec=SecT, _cu_cache=ListOf(CUT), _cu_offsets_map=ListOf(Nat),
-                 config=Rec('DwarfConfig', little_endian=Bool, machine_arch=Str, default_address_size=Choice(4, 8)))
-
 # representation invariant of the unit cache: parallel, strictly increasing, entry i is the unit at offsets[i]
 CU_RI = ["len(self._cu_cache) == len(self._cu_offsets_map)",
          "forall(lambda i, j: i >= j or self._cu_offsets_map[i] < self._cu_offsets_map[j],"
          " 0, len(self._cu_offsets_map), 0, len(self._cu_offsets_map))",
          "forall(lambda i: cu_at(self._cu_cache[i], self.debug_info_sec.stream.B, self._cu_offsets_map[i]), 0, len(self._cu_cache))"]
+
+
+# the unit cache lists are representation fields: only _cached_CU_at_offset touches them; CU_RI is the
+# object invariant (assumed for every DWARFInfo object, re-established by the owner, checked at yields)
+DWARFInfoT = Obj('DWARFInfo', _inv=CU_RI, _rep=('_cu_cache', '_cu_offsets_map'), debug_info_sec=SecT,
+                 _cu_cache=ListOf(CUT), _cu_offsets_map=ListOf(Nat),
+                 config=Rec('DwarfConfig', little_endian=Bool, machine_arch=Str, default_address_size=Choice(4, 8)))
+CU_CACHE_SHAPES = {"self._cu_cache": ListOf(CUT), "self._cu_offsets_map": ListOf(Nat)}
 
 
 @contract("elftools/dwarf/dwarfinfo.py", "DWARFInfo._parse_CU_at_offset", props=["C13", "C10", "C04"])
@@ -27,7 +32,8 @@ class cached_cu_at:
     """returns the unit at `offset` (what a fresh parse returns) whatever the cache holds, and keeps
     the cache invariant"""
     params = dict(self=DWARFInfoT, offset=Nat)
-    requires = CU_RI
+    modifies = ["self._cu_cache", "self._cu_offsets_map"]
+    havoc_shapes = CU_CACHE_SHAPES
     returns = CUT
     ensures = ["cu_at(result, self.debug_info_sec.stream.B, offset)"] + CU_RI
     may_raise = ["ELFParseError", "DWARFError", "OverflowError", "AssertionError"]
@@ -63,7 +69,7 @@ class has_debug_info:
 class get_cu_at:
     """an offset-exact lookup returns the unit starting there"""
     params = dict(self=DWARFInfoT, offset=Int)
-    requires = CU_RI
+    modifies = ["*rep"]
     returns = CUT
     ensures = ["cu_at(result, self.debug_info_sec.stream.B, offset)",
                "0 <= offset and offset < self.debug_info_sec.size"] + CU_RI      # out-of-range offsets never return
@@ -74,11 +80,10 @@ class get_cu_at:
 class parse_cus_iter:
     """units in section order from `offset`: unit k+1 starts at unit k + unit_length + initial length size"""
     params = dict(self=DWARFInfoT, offset=Nat)
-    requires = CU_RI
     ghost = {"$B": "self.debug_info_sec.stream.B", "$o0": "offset"}
     yield_shape = CUT
-    yield_havoc = ["self._cu_cache", "self._cu_offsets_map"]
-    yield_invariant = CU_RI
+    yield_havoc = ["*rep"]
+    modifies = ["*rep"]
     loops = {0: dict(invariant=["offset == unit_off($B, $o0, $k)", "$k == $n"] + CU_RI)}
     each_yield = ["cu_at(value, $B, unit_off($B, $o0, $n))",
                   "unit_off($B, $o0, $n) < self.debug_info_sec.size"]
@@ -90,7 +95,8 @@ class parse_cus_iter:
 class get_cu_containing:
     """the unit whose extent [cu_offset, cu_offset + size) contains the offset"""
     params = dict(self=DWARFInfoT, refaddr=Int)
-    requires = CU_RI
+    modifies = ["self._cu_cache", "self._cu_offsets_map"]      # reads the offsets map directly (bisect)
+    havoc_shapes = CU_CACHE_SHAPES
     returns = CUT
     loops = {0: dict(invariant=CU_RI)}
     ensures = ["result.cu_offset <= refaddr",
